@@ -180,7 +180,7 @@ class Uniform(Prior):
                 self.guess = upper_bound
             else:
                 self.guess = 0
-        elif not lower_bound <= guess <= upper_bound:
+        elif not lower_bound <= guess <= upper_bound or np.isinf(guess):
             raise ParameterSpecificationError(
                     "Guess {} is not within bounds {} and {}.".format(
                     guess, lower_bound, upper_bound))
@@ -209,7 +209,8 @@ class Uniform(Prior):
 
     @property
     def interval(self):
-        return(self.upper_bound - self.lower_bound)
+        # (python floats: narrow or unsigned integer bounds would wrap around)
+        return float(self.upper_bound) - float(self.lower_bound)
 
     def sample(self, size=None):
         return random.uniform(self.lower_bound, self.upper_bound, size)
@@ -250,13 +251,14 @@ class Gaussian(Prior):
     def lnprob(self, p):
         # (divide before squaring: squares of NumPy integers wrap around
         # and squares of very large or small floats leave the float range)
-        zscore = (p - self.mu) / self.sd
+        zscore = np.subtract(p, self.mu, dtype=float) / self.sd
         return self._lnprob_normalization - zscore * zscore / 2
         # Turns out scipy.stats is noticably slower than doing it ourselves
         # return stats.norm.logpdf(p, self.mu, self.sd)
 
     def prob(self, p):
-        return stats.norm.pdf(p, self.mu, self.sd)
+        return stats.norm.pdf(np.asarray(p, dtype=float), float(self.mu),
+                              float(self.sd))
 
     @property
     def guess(self):
